@@ -514,6 +514,12 @@ class Interp(object):
                 ha, hb = self.as_hf(a), self.as_hf(b)
                 if op == 'BitXor' and ha is not None and hb is not None:
                     return ha.xor(hb)
+                if op == 'BitAnd':
+                    # `mask & value` with a mask that is all ones or all zeros depending on one condition (a branch-free
+                    # `if c { value } else { 0 }`): the hash value gated by that condition
+                    for h_, m_ in ((a, b), (b, a)):
+                        if isinstance(h_, HF) and isinstance(m_, BV) and m_.w == 64 and all(x is m_.bits[0] for x in m_.bits):
+                            return h_.gate(m_.bits[0])
                 self.ev('hash-nonxor', fn, at, op)
                 return Top('hash combined with %s' % op)
             if isinstance(a, BV) and isinstance(b, BV) and a.w == b.w:
@@ -1246,6 +1252,9 @@ class Interp(object):
             for fty, off in zip(ti['of'], ti['offs']):
                 fti = self.tyinfo(fty) or {}
                 sz = fti['bits'] // 8 if fti.get('k') in ('int', 'char') else (1 if fti.get('k') == 'bool' else None)
+                if sz is None and fti.get('k') == 'adt' and fti.get('enum') and all(not v['fields'] for v in fti['variants']) \
+                        and len(fti['variants']) <= 256 and 'repr' not in fti:
+                    sz = 1          # a fieldless enum with at most 256 variants is one byte (default representation)
                 if sz is None:
                     return Top('bytes of ' + ty)
                 fields.append(self.decode_bytes(raw[off:off + sz], fty))
@@ -1273,6 +1282,21 @@ class Interp(object):
             if isinstance(v, Ref):
                 return v
             return Ref(cell)
+        if o.get('bytes') is not None and o.get('fnptrs'):
+            # a table of function pointers: `const T: [fn(..); N] = [f, g, h]` (pointer slots exported with their targets)
+            ptrs = {int(off): path for off, path in o['fnptrs']}
+            raw = bytes.fromhex(o['bytes'])
+            aty = ti['to'] if ti.get('k') == 'ref' else ty
+            ati = self.tyinfo(aty) or {}
+            if ati.get('k') == 'array' and ati.get('len') and len(raw) == 8 * ati['len'] and sorted(ptrs) == [8 * i for i in range(ati['len'])]:
+                val = Seq([('elem', FnItem(ptrs[8 * i])) for i in range(ati['len'])])
+                if ti.get('k') == 'ref':
+                    cell = ('static', 'const:%s:%s' % (ty, '|'.join(ptrs[k] for k in sorted(ptrs))[:120]))
+                    self.static_cells[cell] = val
+                    st.store[cell] = val
+                    return Ref(cell)
+                return val
+            return Top('const %s with function pointers' % ty)
         if o.get('bytes') is not None:
             raw = bytes.fromhex(o['bytes'])
             if ti.get('k') == 'ref':
@@ -1920,6 +1944,12 @@ class Interp(object):
             if lo == hi == v:
                 return C1
             return self.cmp_atom('Eq', d, BV.const(v, d.w))
+        if d.w > 8 and sum(1 for b in d.bits if b.kind != 'c') > B.K:
+            # a wide symbolic value compared with a constant (`match bits { MASK_A => .., MASK_B => .. }`): the same predicate, and
+            # the same atom, as `bits == MASK_A`
+            e = self.eq_bit(d, BV.const(v, d.w))
+            if e is not None:
+                return e
         r = C1
         for i, b in enumerate(d.bits):
             want = (v >> i) & 1
